@@ -2269,6 +2269,98 @@ fn c15(rng: &mut Rng, thorough: bool, _hints: &[Vec<String>], rep: &mut Report) 
         fir_stage!(&HBF_TAPS_98.3, 3);
         fir_stage!(&HBF_TAPS_98.4, 2);
     }
+    // --- cascades = composition of the stage FIRs on arbitrary streams (dense AND sparse) cut into arbitrary
+    //     admissible blocks: reference computed in f64 from the published taps, stage by stage
+    {
+        fn full_kernel(taps: &[f32]) -> Vec<f64> {
+            let m = taps.len();
+            let mut full = vec![0f64; 4 * m - 1];
+            for (i, t) in taps.iter().enumerate() {
+                full[2 * i] = *t as f64;
+                full[4 * m - 2 - 2 * i] = *t as f64;
+            }
+            full[2 * m - 1] = 1.0;
+            full
+        }
+        fn conv_at(full: &[f64], sig: &[f64], t: i64) -> f64 {
+            full.iter().enumerate().map(|(j, c)| { let i = t - j as i64; if i >= 0 && (i as usize) < sig.len() { c * sig[i as usize] } else { 0.0 } }).sum()
+        }
+        let stage_taps: [&[f32]; 4] = [&HBF_TAPS.0, &HBF_TAPS.1, &HBF_TAPS.2, &HBF_TAPS.3];
+        let runs = if thorough { 400 } else { 60 };
+        for run in 0..runs {
+            let depth = 1 + (run % 4) as usize;
+            let k = 1usize << depth;
+            let sparse = run % 3 != 0;
+            // decimating cascade: high-rate stream of `nlow * k` samples
+            let nlow = 24 + rng.below(40) as usize;
+            let n = nlow * k;
+            let mut x = crate::gen::f32_stream(rng, n);
+            if sparse {
+                // isolated samples separated by long runs of exact zeros (idle stretches)
+                let keep = 1 + rng.below(6) as usize;
+                let pos: Vec<usize> = (0..keep).map(|_| rng.below(n as u64) as usize).collect();
+                for (i, v) in x.iter_mut().enumerate() { if !pos.contains(&i) { *v = 0.0; } else if *v == 0.0 { *v = 1.0; } }
+            }
+            let scale: f64 = x.iter().map(|v| v.abs() as f64).fold(1e-30, f64::max);
+            let mut sig: Vec<f64> = x.iter().map(|v| *v as f64).collect();
+            for j in (0..depth).rev() {
+                let full = full_kernel(stage_taps[j]);
+                sig = (0..sig.len() / 2).map(|i| 0.5 * conv_at(&full, &sig, 2 * i as i64 + 1)).collect();
+            }
+            let mut h = HbfDecCascade::default();
+            h.set_depth(depth);
+            let parts = crate::gen::partition(rng, n, k, h.block_size().1.min(n.max(k)));
+            let mut out: Vec<f32> = vec![];
+            let mut i = 0;
+            for b in parts.iter() {
+                let mut blk = x[i..i + b].to_vec();
+                out.extend_from_slice(h.process_block(None, &mut blk));
+                i += b;
+            }
+            let inp = format!("HbfDecCascade depth {} {} stream of {} samples, blocks {:?}", depth, if sparse { "sparse" } else { "dense" }, n, &parts[..parts.len().min(12)]);
+            if out.len() != sig.len() {
+                rep.violation("hbf-cascade-fir", "decimating cascade returns one output per 2^depth inputs", &inp, &sig.len().to_string(), &out.len().to_string());
+            } else if let Some(m) = (0..out.len()).find(|m| (out[*m] as f64 - sig[*m]).abs() > 4e-6 * scale * depth as f64) {
+                rep.violation("hbf-cascade-fir", "cascade output = composition of the published stage FIRs (to float rounding), independent of how the stream is cut", &format!("{} output {}", inp, m), &sig[m].to_string(), &out[m].to_string());
+            }
+            // interpolating cascade: low-rate stream
+            let nl = 8 + rng.below(24) as usize;
+            let mut xl = crate::gen::f32_stream(rng, nl);
+            if sparse {
+                let keep = 1 + rng.below(3) as usize;
+                let pos: Vec<usize> = (0..keep).map(|_| rng.below(nl as u64) as usize).collect();
+                for (i, v) in xl.iter_mut().enumerate() { if !pos.contains(&i) { *v = 0.0; } else if *v == 0.0 { *v = 1.0; } }
+            }
+            let scale: f64 = xl.iter().map(|v| v.abs() as f64).fold(1e-30, f64::max);
+            let mut sig: Vec<f64> = xl.iter().map(|v| *v as f64).collect();
+            for j in 0..depth {
+                let full = full_kernel(stage_taps[j]);
+                let mut stuffed = vec![0f64; 2 * sig.len()];
+                for (i, v) in sig.iter().enumerate() { stuffed[2 * i] = *v; }
+                sig = (0..stuffed.len()).map(|m| conv_at(&full, &stuffed, m as i64)).collect();
+            }
+            let mut h = HbfIntCascade::default();
+            h.set_depth(depth);
+            let maxlow = (h.block_size().1 / k).max(1);
+            let parts = crate::gen::partition(rng, nl, 1, maxlow.min(nl));
+            let mut out: Vec<f32> = vec![];
+            let mut i = 0;
+            for b in parts.iter() {
+                let mut y = vec![0f32; b * k];
+                y[..*b].copy_from_slice(&xl[i..i + b]);
+                out.extend_from_slice(h.process_block(None, &mut y));
+                i += b;
+            }
+            let inp = format!("HbfIntCascade depth {} {} stream of {} low-rate samples, blocks {:?}", depth, if sparse { "sparse" } else { "dense" }, nl, &parts[..parts.len().min(12)]);
+            if out.len() != sig.len() {
+                rep.violation("hbf-cascade-fir", "interpolating cascade returns 2^depth outputs per input", &inp, &sig.len().to_string(), &out.len().to_string());
+            } else if let Some(m) = (0..out.len()).find(|m| (out[*m] as f64 - sig[*m]).abs() > 4e-6 * scale * k as f64) {
+                rep.violation("hbf-cascade-fir", "cascade output = composition of the published stage FIRs (to float rounding), independent of how the stream is cut", &format!("{} output {}", inp, m), &sig[m].to_string(), &out[m].to_string());
+            }
+            rep.count("hbf-cascade-fir-streams", 2);
+            rep.distinct += 2;
+        }
+    }
     // --- cascades: impulse response spec
     let grid = if thorough { 1 << 15 } else { 1 << 12 };
     for depth in 1..=4usize {
@@ -2571,6 +2663,83 @@ fn c08(rng: &mut Rng, thorough: bool, _hints: &[Vec<String>], rep: &mut Report) 
             rep.count("pid-proportional", 2);
         }
         rep.distinct += 1;
+    }
+    // "quantise the normalised gains, then expand with integer derivative kernels": for fixed-point coefficients the
+    // three individually quantised gains / normalised limits are recovered EXACTLY from the built coefficients
+    // (g2 = b2, g1 = -(b1 + 2 b2), g0 = b0 + b1 + b2; likewise for the feedback side with a0 = ONE implied) and
+    // each must be the quantisation of gain_i * period^(2-i) / (l0 + l1 + l2) computed in the builder's float type,
+    // for BOTH builder float types and coefficient types that resolve gains far below the largest one
+    macro_rules! gains_individually {
+        ($T:ty, $C:ty, $q:expr, $i:expr) => {{
+            let dec = |rng: &mut Rng| -> $T { (10.0 as $T).powi(rng.range(-9, 5) as i32) * (1.0 + rng.below(900) as $T / 100.0) };
+            let period: $T = (10.0 as $T).powi(rng.range(-3, 1) as i32) * (1.0 + rng.below(9) as $T);
+            let (order, oi) = [(Order::P, 2usize), (Order::I, 1), (Order::I2, 0)][rng.below(3) as usize];
+            let sign: $T = if rng.chance(1, 4) { -1.0 } else { 1.0 };
+            let mut gains = [0.0 as $T; 5];
+            let mut limits = [<$T>::INFINITY; 5];
+            for j in 0..5 {
+                if rng.chance(2, 3) { gains[j] = sign * dec(rng); }
+                if $i % 2 == 0 && rng.chance(1, 3) { limits[j] = sign * dec(rng) * 1e3; }
+            }
+            let mut b = PidBuilder::<$T>::default();
+            b.period(period).order(order);
+            for j in 0..5 { b.gain(acts[j], gains[j]).limit(acts[j], limits[j]); }
+            // reference, in the builder's float type and in the code's order of operations
+            let mut z = period.powi(-(oi as i32));
+            let mut gl = [[0.0 as $T; 2]; 3];
+            for j in (0..3).rev() {
+                let idx = oi + j;
+                gl[j][0] = gains[idx] * z;
+                gl[j][1] = if idx == 2 { 1.0 } else { gl[j][0] / limits[idx] };
+                z = z * period;
+            }
+            let a0i = 1.0 / (gl[0][1] + gl[1][1] + gl[2][1]);
+            let one = (1i128 << $q) as f64;
+            let lim = 1.9 * one; // stay clear of the saturating cast and of coefficient-sum overflow
+            let wantf: Vec<[f64; 2]> = gl.iter().map(|p| [(p[0] * a0i) as f64 * one, (p[1] * a0i) as f64 * one]).collect();
+            let fits = a0i.is_finite() && wantf.iter().all(|p| p[0].abs() < lim / 4.0 && p[1] >= 0.0 && p[1] <= 1.0001 * one);
+            // documented coefficient overflow (wraps silently in release): decide it from the reference's own quantised values
+            let rq: Vec<[i128; 2]> = wantf.iter().map(|p| [p[0].round() as i128, p[1].round() as i128]).collect();
+            let (tmin, tmax) = (<$C>::MIN as i128 + 4, <$C>::MAX as i128 - 4);
+            let inside = |v: i128| v >= tmin && v <= tmax;
+            let no_overflow = fits && [rq[0][0] + rq[1][0] + rq[2][0], -(rq[1][0] + 2 * rq[2][0]), rq[2][0], -(rq[1][1] + 2 * rq[2][1]), rq[2][1], rq[0][1] + rq[1][1] + rq[2][1]].iter().all(|v| inside(*v))
+                // the exact integrator kernels sit ON the boundary (a1 = -2 ONE = MIN) and are fine
+                || fits && wantf.iter().all(|p| p[1] == 0.0 || p[1] == one) && [rq[0][0] + rq[1][0] + rq[2][0], -(rq[1][0] + 2 * rq[2][0])].iter().all(|v| inside(*v));
+            if no_overflow {
+                let inp = format!("PidBuilder::<{}> period={} order={:?} gains={:?} limits={:?} .build::<{}>()", stringify!($T), period, order, gains, limits, stringify!($C));
+                match guard(|| b.build::<$C>()) {
+                    // documented: "Will panic in debug mode on fixed point coefficient overflow" (e.g. a1 = -(l1 + 2 l2)
+                    // just below -2 ONE when the normalisation 1/(1 + tiny) rounds to 1 in f32): not part of the property
+                    None => rep.count("pid-gains-individually-skipped-documented-overflow", 1),
+                    Some(c) => {
+                        let c: Vec<i128> = c.iter().map(|v| *v as i128).collect();
+                        let onei = 1i128 << $q;
+                        // b = [b0, b1, b2], a = [ONE (implied), a1, a2]
+                        let gq = [c[0] + c[1] + c[2], -(c[1] + 2 * c[2]), c[2]];
+                        let lq = [onei + c[3] + c[4], -(c[3] + 2 * c[4]), c[4]];
+                        for j in 0..3 {
+                            for (k, got) in [(0usize, gq[j]), (1usize, lq[j])] {
+                                let w = wantf[j][k];
+                                // the recovered l0 is ONE - (l1 + l2), not a quantised value of its own: error relative to ONE
+                                let slack = 2.0 + (if k == 1 && j == 0 { one } else { w.abs() }) * 16.0 * (<$T>::EPSILON as f64);
+                                if (got as f64 - w).abs() > slack {
+                                    rep.violation("pid-gains-individually", "each period-scaled gain / normalised limit is quantised on its own and expanded with the integer kernels [1], [1,-1], [1,-2,1]", &format!("{} ({} {})", inp, if k == 0 { "gain" } else { "limit" }, j), &format!("{:.1} (+-{:.1}) LSB", w, slack), &got.to_string());
+                                }
+                            }
+                        }
+                    }
+                }
+                rep.count(concat!("pid-gains-individually[", stringify!($T), "->", stringify!($C), "]"), 1);
+            }
+        }};
+    }
+    let m = if thorough { 200_000 } else { 20_000 };
+    for i in 0..m {
+        gains_individually!(f32, i32, 30, i);
+        gains_individually!(f32, i64, 62, i);
+        gains_individually!(f64, i32, 30, i);
+        gains_individually!(f64, i64, 62, i);
+        gains_individually!(f32, i16, 14, i);
     }
     rep.sample("PidBuilder period=1 I=1e-3 P=1 D=1e2 limit I=1e3 D=1e1 (crate unit test)".into());
 }
